@@ -564,8 +564,8 @@ def _enum_decode(res, key, raws, nt_fingerprint=False):
         res.count()
         ref = RM.decode_tagged(row, raw)
         if _nontrivial(row, raw, ref):
-            if nt_fingerprint:
-                res.nontrivial_key((key, raw))
+            if nt_fingerprint:   # same fingerprint form as the Hypothesis cases, so overlaps are not counted twice
+                res.nontrivial({"op": "decode", "key": key, "raw": list(raw)})
             else:
                 res.nontrivial()
         res.hist[_refclass(ref)] += 1
@@ -620,7 +620,12 @@ def _shard(arg):
         _, key, lo, hi, stride = arg
         cls, row = _resolve(key)
         w = row["width"]
-        _enum_decode(res, key, (v.to_bytes(w, "big") for v in range(lo, hi, stride)))
+        if stride == 1:
+            raws = (v.to_bytes(w, "big") for v in range(lo, hi, stride))
+        else:       # strided sweep: the boundary set is covered (and counted) by the "wide" shard of this value
+            skip = set(boundary_raws(row))
+            raws = (b for b in (v.to_bytes(w, "big") for v in range(lo, hi, stride)) if b not in skip)
+        _enum_decode(res, key, raws)
         if lo == 0 and stride == 1:
             res.label("kind:" + row["kind"] + ("-signed" if row["signed"] else ""))
             res.sample({"op": "decode", "key": key, "raw": list((0xFFFE & ((1 << 8 * w) - 1)).to_bytes(w, "big"))},
